@@ -150,28 +150,28 @@ def run(rep, facts, tier):
 
     # ---------------- R2: run vs next
     sig = {}
+    from .. import inline, stepfx
+    from ..pathq import edge_guards
+    V = inline.View(fx)
     for fn in ('state::State::run', 'state::State::next'):
-        f = fx.need(fn)
-        cs = []
+        fx.need(fn)
+        f = V(fn)       # an unnamed step helper between the driver and fetch_and_run is looked through
+        cs = set()
         for bb, t in f.calls():
             c = callee_of(t)
             if c and c.startswith('state::'):
-                cs.append(c)
+                cs.add(c)
+                # what the closures handed to combinators call counts as called by the driver (map_err closure == if-let body)
+            for a in t['args']:
+                for x in expr_walk(f.expr_of_operand(a)):
+                    if isinstance(x, tuple) and x[0] == 'closure' and x[1] in fx.fns:
+                        cs |= {callee_of(t2) for _, t2 in fx.fns[x[1]].calls() if callee_of(t2) and callee_of(t2).startswith('state::')}
         clos = set()
-        for c in fx.callgraph().get(fn, ()):
-            if c.startswith(fn + '::{closure') and c in fx.fns:
-                clos |= {callee_of(t) for _, t in fx.fns[c].calls() if callee_of(t) and callee_of(t).startswith('state::')}
-        # guard: fetch_and_run control-dependent on is_running() true edge
-        guarded = False
-        dom = f.dominators()
+        # guard: fetch_and_run runs only if is_running() was true
         fb = [bb for bb, t in f.calls() if callee_of(t) == 'state::State::fetch_and_run']
-        for bb in f.reachable_blocks():
-            br = bool_branch(f, bb)
-            if br and isinstance(br[0], tuple) and br[0][0] == 'call' and br[0][1] == 'state::State::is_running':
-                if fb and all(br[1] in dom.get(x, ()) for x in fb):
-                    guarded = True
-        # error propagation: result of map_err is `?`-propagated
-        prop = any(callee_of(t) == 'core::result::Result::<T, E>::map_err' and try_continue_block(f, bb) is not None for bb, t in f.calls())
+        guarded = bool(fb) and all(any(isinstance(e, tuple) and e[0] == 'call' and e[1] == 'state::State::is_running' and side
+                                       for (_b, e, side) in edge_guards(f, x)) for x in fb)
+        recorded, prop, how = stepfx.step_error_recorded(fx, f)
         sig[fn] = (frozenset(cs), frozenset(clos), guarded, prop)
     a, b = sig['state::State::run'], sig['state::State::next']
     same = a[0] == b[0] and a[1] == b[1]
